@@ -2,7 +2,7 @@
    intervene, Product.safe, Sum.safe, Sum.simplify, __mul__ / __truediv__ of every class, marginalize,
    conditional, normalize_marginalize, Fraction.simplify, and the sort keys (_get_key, _variable_sort_key). *)
 From Coq Require Import List Bool Arith ZArith String.
-From Y0 Require Import Base.ListSet Dsl.Syntax Dsl.Text.
+From Y0 Require Import Base.ListSet Dsl.Syntax Dsl.Text Dsl.Print.
 Import ListNotations.
 
 (* ---------------------------------------------------------------- variable ordering *)
@@ -111,11 +111,15 @@ Fixpoint key_cmp (a b : key) : comparison :=
 
 (* pinned tree before the repair: the key alone *)
 Definition expr_lt_old (a b : expr) : bool := match key_cmp (get_key a) (get_key b) with Lt => true | _ => false end.
-(* repaired Product.safe: sorted(key=(e._get_key(), e.to_text())) *)
+(* repaired Product.safe: sorted(key=(e._get_key(), e.to_text(), e.to_y0())) *)
 Definition expr_lt (a b : expr) : bool :=
   match key_cmp (get_key a) (get_key b) with
   | Lt => true
-  | Eq => String.ltb (to_text a) (to_text b)
+  | Eq => match String.compare (to_text a) (to_text b) with
+          | Lt => true
+          | Eq => String.ltb (to_y0 a) (to_y0 b)
+          | Gt => false
+          end
   | Gt => false
   end.
 
